@@ -86,9 +86,16 @@ pub struct Local {
     pub samples: Vec<String>,
     pub nontrivial_samples: Vec<String>,
     pub space_name: String,
+    /// union of the lexer's dispatch coverage bit sets (hook H6)
+    pub cover: [u64; sas_lexer::verif::COVER_WORDS],
 }
 
 impl Local {
+    pub fn cover(&mut self, v: &sas_lexer::verif::VerifInfo) {
+        for (a, b) in self.cover.iter_mut().zip(v.dispatch_cover.iter()) {
+            *a |= *b;
+        }
+    }
     pub fn count(&mut self, key: &'static str) {
         *self.counters.entry(key).or_insert(0) += 1;
     }
@@ -144,6 +151,9 @@ impl Local {
         }
         self.states.extend(o.states);
         self.transitions.extend(o.transitions);
+        for (a, b) in self.cover.iter_mut().zip(o.cover.iter()) {
+            *a |= *b;
+        }
         for (k, v) in o.counters {
             *self.counters.entry(k).or_insert(0) += v;
         }
